@@ -26,14 +26,73 @@ THEOREMS = [
     'Sbepp.Properties.C06.checked_valid_iff_partial',
     'Sbepp.Properties.C06.checked_group_valid_iff_partial',
     'Sbepp.Properties.C06.checked_valid_iff_full_false',
-    'Sbepp.Properties.C06.checked_reads_slack',
     'Sbepp.Properties.C06.checked_reads_below_n_partial',
+    'Sbepp.Properties.C06.checked_group_reads_below_n_partial',
+    'Sbepp.Properties.C06.strict_implies_fits',
+    'Sbepp.Properties.C06.checked_reads_slack',
+    'Sbepp.Properties.C06.checked_group_reads_slack',
     'Sbepp.Properties.C06.checked_reads_below_n_full_false',
+    'Sbepp.Properties.C06.checked_reads_short_block_witness',
     'Sbepp.Properties.C06.checked_work_accounted',
+    'Sbepp.Properties.C06.checked_group_work_accounted',
     'Sbepp.Properties.C06.checked_work_bounded_partial',
     'Sbepp.Properties.C06.checked_work_bounded_full_false',
 ]
 MODEL_STEP_LIMIT = 1000000
+
+
+# ------------------------------------------------------------------ corpus: the Lean witnesses on the real code
+
+def _u16hdr():
+    return {'k': 'composite', 'name': 'messageHeader',
+            'elems': [{'k': 'type', 'name': x, 'prim': 'uint16'} for x in ('blockLength', 'templateId', 'schemaId', 'version')]}
+
+
+CORPUS_SCHEMA = {
+    'package': 'vs', 'id': 1, 'version': 0, 'byteOrder': 'littleEndian',
+    'types': [
+        _u16hdr(),
+        {'k': 'composite', 'name': 'Dim', 'elems': [{'k': 'type', 'name': 'blockLength', 'prim': 'uint8'},
+                                                   {'k': 'type', 'name': 'numInGroup', 'prim': 'uint8'}]},
+        {'k': 'composite', 'name': 'Var8', 'elems': [{'k': 'type', 'name': 'length', 'prim': 'uint8'},
+                                                    {'k': 'type', 'name': 'varData', 'prim': 'uint8', 'length': 0}]},
+        {'k': 'composite', 'name': 'Var64', 'elems': [{'k': 'type', 'name': 'length', 'prim': 'uint64'},
+                                                     {'k': 'type', 'name': 'varData', 'prim': 'uint8', 'length': 0}]},
+    ],
+    'messages': [
+        # witness (i) of checked_reads_below_n_full_false (Properties/C06.lean `dataMsg`)
+        {'name': 'MData', 'id': 1, 'fields': [], 'groups': [], 'datas': [{'name': 'd', 'id': 2, 'type': 'Var8'}]},
+        # witness (ii) `shortMsg`
+        {'name': 'MField', 'id': 3, 'fields': [{'name': 'a', 'id': 4, 'type': 'uint32'}], 'groups': [], 'datas': []},
+        # witness (iii) of checked_work_bounded_full_false `loopMsg`
+        {'name': 'MLoop', 'id': 5, 'fields': [],
+         'groups': [{'name': 'g', 'id': 6, 'dim': 'Dim', 'fields': [], 'groups': [], 'datas': []}], 'datas': []},
+        # witness of checked_valid_iff_full_false `wideMsg`
+        {'name': 'MWide', 'id': 7, 'fields': [], 'groups': [], 'datas': [{'name': 'd', 'id': 8, 'type': 'Var64'}]},
+    ],
+}
+H = [0, 0, 1, 0, 1, 0, 0, 0]   # header: blockLength 0
+# (message, bytes, n, mutation label, expected `what` on the current code)
+CORPUS_REQUESTS = [
+    ('MData', H, 8, {'mut_field': 'truncate', 'mut_value': '-', 'prim': '-', 'owner': '-', 'corpus': 'dataMsg'}, 'overread'),
+    ('MField', H, 8, {'mut_field': 'blockLength', 'mut_value': '0', 'prim': 'uint16', 'owner': 'message',
+                      'corpus': 'shortMsg'}, 'overread'),
+    ('MLoop', H + [0, 255], 10, {'mut_field': 'blockLength+numInGroup', 'mut_value': '0+max', 'prim': 'uint8',
+                                 'owner': 'group', 'corpus': 'loopMsg'}, 'unbounded-loop'),
+    ('MWide', H + [255] * 8, 16, {'mut_field': 'length', 'mut_value': 'max', 'prim': 'uint64', 'owner': 'data',
+                                  'corpus': 'wideMsg'}, 'wrong-verdict'),
+]
+
+
+def corpus_case(chk, run):
+    c = wire.SchemaCase(chk, 9000, CORPUS_SCHEMA, run.workdir)
+    c.compile_schema(run.sbeppc)
+    if c.rc != 0:
+        chk.report_unproved('corpus schema rejected by sbeppc', {'rc': c.rc, 'out': c.out[:500]})
+        return None
+    import json
+    c.layout = json.loads(run.model_lines(['layout ' + c.sexp])[0])
+    return c
 
 
 # ------------------------------------------------------------------ images with the offsets of their header values
@@ -243,13 +302,17 @@ def judge(r, mk, ik, variant, feats):
 
 def variants_for(tier):
     if tier == 'thorough':
+        # clang++-14 with libstdc++ 12 cannot link -finstrument-functions builds in C++17 and later
+        # (non-inlined constexpr members of std::string/std::allocator are not emitted): clang is used with C++11/14
         return [('g++', 'c++17', 'rel'), ('g++', 'c++17', 'chk'), ('clang++-14', 'c++11', 'rel'),
-                ('clang++-14', 'c++20', 'chk'), ('g++', 'c++11', 'rel'), ('clang++-14', 'c++14', 'rel')]
+                ('clang++-14', 'c++14', 'chk'), ('g++', 'c++20', 'rel')]
     return [('g++', 'c++17', 'rel'), ('g++', 'c++17', 'chk'), ('clang++-14', 'c++11', 'rel')]
 
 
 def correspond(chk, run, variants, values_per_msg):
     stats = run.stats
+    corpus_expect = {}
+    corpus_seen = {}
     stats.update({'requests': 0, 'truncations': 0, 'overwrites': 0, 'group_view_requests': 0, 'c06_driver_builds': 0,
                   'impl_outcomes': {}, 'model_out_of_fuel': 0, 'model_overreads': 0, 'model_zero_entry_runs': 0})
     # drivers
@@ -271,10 +334,19 @@ def correspond(chk, run, variants, values_per_msg):
                     'case': {'what': 'driver-compile', 'cxx': cxx, 'std': std, 'first_error': W.first_error(log)}})
             else:
                 drivers[(c.idx, cxx, std, v)] = exe
+    chk.log('drivers built: %d' % len(drivers))
     # requests
     reqs = []
     feats_of = {}
     for c in run.cases:
+        if c.idx == 9000:
+            by_name = {m['name']: m for m in c.layout['messages']}
+            for (mn, buf, n, mut, expect) in CORPUS_REQUESTS:
+                feats_of[(c.idx, mn)] = {}
+                r = Req(c, by_name[mn], 'message', None, list(buf), n, dict(mut), False, len(buf))
+                reqs.append(r)
+                corpus_expect[id(r)] = expect
+            continue
         bo = 'little' if c.layout['byteOrder'] == 'little' else 'big'
         for m in c.layout['messages']:
             if not wire.fits(m) or not wire.std_data_headers(m):
@@ -287,8 +359,10 @@ def correspond(chk, run, variants, values_per_msg):
                 v = wire.gen_message_value(rng, c.layout['byteOrder'], m, c.s['id'], c.s['version'], ext_ok=True)
                 img, marks, tops = flatten_message(bo, m, v)
                 reqs += requests_for_image(c, m, bo, img, marks, tops)
+    chk.log('requests: %d' % len(reqs))
     # model + spec
     mouts = run.model_lines([r.model_line() for r in reqs])
+    chk.log('model answered')
     good = []
     for r, mo in zip(reqs, mouts):
         mk = parse_model(mo)
@@ -319,6 +393,7 @@ def correspond(chk, run, variants, values_per_msg):
     nontrivial = set()
     with cf.ThreadPoolExecutor(core.NPROC) as ex:
         results = list(ex.map(run_one, per.items()))
+    chk.log('implementation answered')
     for ((exe, cxx, std, v), rs), rc, outs in results:
         if rc != 0 or len(outs) != len(rs):
             chk.report_unproved('driver-run', {'rc': rc, 'answers': len(outs), 'requests': len(rs), 'exe': exe,
@@ -338,6 +413,9 @@ def correspond(chk, run, variants, values_per_msg):
                 stats['overwrites'] += 1
             nontrivial.add((r.case.idx, r.msg['name'], r.view, r.group, r.n, tuple(r.padded())))
             fails, mism = judge(r, r.mk, ik, v, feats_of[(r.case.idx, r.msg['name'])])
+            if id(r) in corpus_expect and v == 'rel':
+                corpus_seen.setdefault(r.mut['corpus'], []).append(
+                    (corpus_expect[id(r)], sorted({f[0]['what'] for f in fails}), io, r.mk['model'], r.mk['spec']))
             for case, obs in fails:
                 case = dict(case, cxx=cxx, std=std)
                 chk.report_failure({
@@ -354,6 +432,16 @@ def correspond(chk, run, variants, values_per_msg):
                 chk.sample({'message': r.msg['name'], 'driver_line': r.driver_line()[:200], 'mutation': r.mut,
                             'impl': io, 'model': r.mk['model'], 'spec': r.mk['spec']})
     chk.cov['distinct_nontrivial'] += len(nontrivial)
+    # the refutation witnesses of Properties/C06.lean must still fail on the real code in the way the theorems say
+    stats['lean_witnesses_replayed'] = {k: [dict(expected=e, observed=o, impl=i, model=m, spec=sp) for (e, o, i, m, sp) in v]
+                                        for k, v in corpus_seen.items()}
+    for name, obs in corpus_seen.items():
+        for (expect, whats, io, model, spec) in obs:
+            if expect not in whats:
+                chk.report_unproved('a refutation witness of Properties/C06.lean no longer fails on the implementation '
+                                    '(the model or the *_full_false theorem is out of date)',
+                                    {'witness': name, 'expected': expect, 'observed': whats, 'impl': io, 'model': model,
+                                     'spec': spec})
 
 
 def run(chk):
@@ -363,11 +451,17 @@ def run(chk):
         chk.leanchecker(MODULE)
     thorough = chk.tier == 'thorough'
     variants = variants_for(chk.tier)
-    run = W.WireRun(chk, 110 if thorough else 20, sorted({(c, s) for (c, s, _) in variants}),
+    run = W.WireRun(chk, 60 if thorough else 20, sorted({(c, s) for (c, s, _) in variants}),
                     values_per_msg=3 if thorough else 2, ext=True, seed_salt=6)
     try:
+        chk.log('proofs audited: %d/%d' % (len(chk.discharged), len(chk.obligations)))
         if run.prepare():
+            chk.log('model driver and sbeppc ready')
             run.gen_cases()
+            chk.log('schemas compiled: %d' % len(run.cases))
+            cc = corpus_case(chk, run)
+            if cc is not None:
+                run.cases.append(cc)
             correspond(chk, run, variants, run.values_per_msg)
     finally:
         run.cleanup()
